@@ -108,6 +108,8 @@ fn anti_inverse(input: &[Node], asm: &Assembly, for_un: bool) -> InversionResult
         CACHE.with(|cache| cache.borrow_mut().clear());
     }
     let mut hasher = RapidHasher::new(1);
+    // Fewer patterns are allowed for un, so the inverse depends on it
+    for_un.hash(&mut hasher);
     for node in input {
         node.hash_deep(Some(asm), &mut hasher);
     }
